@@ -422,6 +422,27 @@ func registerIntrinsics(in *Interp) {
 		return ConcStr(time.Duration(int64(in.Concretize(d))).String())
 	}
 
+	// (*strconv.NumError).Error quotes the offending text with strconv.Quote,
+	// which forks ~20 ways per symbolic byte. Formatting of the standard
+	// library's error text is not the subject of any property: the text is
+	// inserted unescaped (stub, listed in the evidence).
+	I["(*strconv.NumError).Error"] = func(in *Interp, fr *frame, a []Val) Val {
+		e := (*in.deref(a[0])).(Struct)
+		fn, num, inner := e[0].(Str), e[1].(Str), e[2].(Iface)
+		num = num.norm()
+		var msg Str
+		if inner.t != nil {
+			msg = in.invokeMethod(fr, inner, "Error", nil).(Str)
+		}
+		if num.sym == nil {
+			return ConcStr("strconv." + fn.s + ": parsing " + strconv.Quote(num.s) + ": " + msg.norm().s)
+		}
+		r := ConcStr("strconv." + fn.s + ": parsing \"")
+		r = strConcat(r, num)
+		r = strConcat(r, ConcStr("\": "))
+		return strConcat(r, msg)
+	}
+
 	// ---- strconv float (native when concrete) ----
 	I["strconv.ParseFloat"] = func(in *Interp, fr *frame, a []Val) Val {
 		s := a[0].(Str).norm()
